@@ -471,6 +471,10 @@ pub fn check_devices(c: &DevCase, rec: &mut Rec) -> Result<(), String> {
     let receiver_has_mouse = c.tone_period % 2 == 0;
     let mut e = prepare_receiver_with(machine, c.receiver, true, receiver_has_mouse)?;
     if receiver_has_mouse {
+        // ... which has been used: moved, wheel turned, a button held
+        e.send_mouse_pos_diff(33, -21);
+        e.send_mouse_wheel(rustzx_core::zx::mouse::kempston::KempstonMouseWheelDirection::Up);
+        e.send_mouse_button(KempstonMouseButton::Right, true);
         rec.class("receiver-with-a-mouse-of-its-own");
     }
     let ay_off = if machine == Machine::K48 { c.ay_off % 3 } else { 0 };
@@ -574,6 +578,26 @@ pub fn check_devices(c: &DevCase, rec: &mut Rec) -> Result<(), String> {
     }
     // mouse presence
     if let Some(present) = st.mouse {
+        if present {
+            // the file's mouse is a mouse nobody has touched: its ports read what a fresh machine's do
+            // (the format carries no counters), whatever the receiver's own mouse had been through
+            let mut o = EmuOpts::new(machine);
+            o.mouse = true;
+            let mut fresh = mk_emu(&o);
+            let mut mm2 = mem_model(&st);
+            mach::poke_bytes(&mut fresh, &mut mm2, STUB, &[0xED, 0x78, 0xED, 0x79]);
+            for port in [0xFADFu16, 0xFBDF, 0xFFDF] {
+                e.verif_set_frame_clocks(100);
+                fresh.verif_set_frame_clocks(100);
+                let (got, want) = (port_in(&mut e, port)?, port_in(&mut fresh, port)?);
+                if got != want {
+                    return Err(format!(
+                        "{}: file declares a Kempston mouse: port {:#06x} reads {:#04x} after the load, a machine with an untouched mouse reads {:#04x} (the receiver's own mouse had been moved and had a button held)",
+                        tag, port, got, want
+                    ));
+                }
+            }
+        }
         e.send_mouse_button(KempstonMouseButton::Left, true);
         e.verif_set_frame_clocks(100);
         let b = port_in(&mut e, 0xFADF)?;
@@ -608,7 +632,8 @@ pub fn check_envelope_restart(c: &EnvCase, rec: &mut Rec) -> Result<(), String> 
     st.regs.iff1 = false;
     st.regs.iff2 = false;
     let ep = c.ep.clamp(150, 1500);
-    let shapes = [0x00u8, 0x01, 0x03, 0x04, 0x07, 0x09, 0x0F];
+    // (register 13 is 4 bits wide: 0xFF and 0x1F are shape 15, not "leave alone")
+    let shapes = [0x00u8, 0x01, 0x03, 0x04, 0x07, 0x09, 0x0F, 0xFF, 0x1F, 0xF0];
     let shape = shapes[c.shape as usize % shapes.len()];
     let mut regs = [0u8; 16];
     regs[7] = 0x3F;
